@@ -1,3 +1,10 @@
-"""Input-class predicates and as-is models of the open known findings (see known_findings.json)."""
+"""Registers the input-class predicates and as-is models of the known findings (one module per property in mc/kf/)."""
 
-from mc.findings import as_is, input_class  # noqa: F401
+import importlib
+import os
+import pkgutil
+
+import mc.kf
+
+for _m in pkgutil.iter_modules(mc.kf.__path__):
+    importlib.import_module("mc.kf." + _m.name)
